@@ -1,12 +1,12 @@
 (* C06 -- every theorem's hypotheses are met by a concrete, non-trivial instance *)
 From Coq Require Import NArith List Bool Arith Lia.
-From CppUVerif Require Import gen.Gen_Common gen.Gen_C06 lib.Str C04_Model C04_Lists C04_Table C06_Model C06_Proofs C06_Sim.
+From CppUVerif Require Import gen.Gen_Common gen.Gen_C06 lib.Str C04_Model C04_Lists C04_Table C06_Model C06_Proofs C06_Sim C06_Period.
 Import ListNotations.
 Local Open Scope N_scope.
 
 (* objects: 0 "n", 1 "a", 2 accounting wrapper around 0, 3 MemoryLeakAllocator around 2 *)
 Definition ex_ds : list adesc := [APlain [110]; APlain [97]; AWrap false 0%nat; AWrap true 2%nat].
-Definition ex_node : node := mk_node 4608 5 2.
+Definition ex_node : node := mk_node 4608 5 2 SDisabled 0.
 Definition ex_st : dstate := d_store d_init 4608 5 2.
 
 Lemma ex_facts : Inv (s_tbl ex_st) /\ slots_ok (flat (s_tbl ex_st)) /\ In ex_node (flat (s_tbl ex_st)) /\
@@ -28,7 +28,7 @@ Example category_ex :
   dealloc_cat ex_ds false ex_st 1 (Some 4608) = CMismatch /\
   dealloc_cat ex_ds false (with_mem ex_st (mwrite (s_mem ex_st) 4615 [0])) 0 (Some 4608) = CCorrupt /\
   dealloc_cat ex_ds false (with_mem ex_st (mwrite (s_mem ex_st) 4615 [0])) 1 (Some 4608) = CMismatch /\  (* mismatch goes first *)
-  dealloc_cat ex_ds false (mkD (s_tbl ex_st) false (mwrite (s_mem ex_st) 4615 [0])) 1 (Some 4608) = CCorrupt /\
+  dealloc_cat ex_ds false (with_tc (with_mem ex_st (mwrite (s_mem ex_st) 4615 [0])) false) 1 (Some 4608) = CCorrupt /\
   dealloc_cat ex_ds false ex_st 0 (Some 4609) = CNonAlloc /\
   category_is ex_ds ex_st 1 (Some 4608) CMismatch.
 Proof.
@@ -77,7 +77,7 @@ Example poison_before_free_ex :
 Proof.
   destruct ex_facts as (I & _ & _ & E).
   destruct (free_some ex_ds false ex_st ENew 1%nat (Some 4608)) as (st' & x & Hs). exists st', x. split; [exact Hs|].
-  destruct (poison_before_free ex_ds false ex_st ENew 1%nat 4608 ex_node x st' I ltac:(discriminate) E Hs) as [_ H].
+  destruct (poison_before_free ex_ds false ex_st ENew 1%nat 4608 ex_node x st' I eq_refl E Hs) as [_ H].
   split; [|apply H; right; reflexivity].
   vm_compute in Hs. inversion Hs. reflexivity.
 Qed.
@@ -102,10 +102,36 @@ Definition ex_scn : scenario :=
      OpFree ENew 0 (Some 4608);                                                           (* stale: non-allocated *)
      OpAlloc EString 3 9216 4; OpFree ENewArr 1 (Some 9216);                              (* mismatch *)
      OpAlloc EMalloc 1 13824 0; OpWrite 13824 [7]; OpRealloc 1 (Some 13824) 18432 8;      (* corruption seen by realloc *)
-     OpFree EMalloc 1 (Some 18505); OpTypeCheck false; OpFree ENew 0 (Some 18432); OpFree ENew 0 None].
+     OpPeriod PDisable; OpFree EMalloc 1 (Some 18505); OpTypeCheck false; OpStage true; OpFree ENew 0 (Some 18432); OpFree ENew 0 None].
 Example run_meets_spec_ex :
   valid ex_scn = true /\ map o_cat (run ex_scn) = [0; 1; 2; 3; 1; 0; 0] /\ spec ex_scn (run ex_scn) = true.
 Proof.
   assert (V : valid ex_scn = true) by (vm_compute; reflexivity).
   split; [exact V|]. split; [vm_compute; reflexivity|]. apply run_meets_spec. exact V.
+Qed.
+
+(* the same block, guard byte changed, allocated while the detector is disabled at stage 0 and released after startChecking at stage 1,
+   against the same history with the detector left enabled throughout: same items; and a disabled-period release shows the poison *)
+Definition ex_ops_a : list op :=
+  [OpPeriod PDisable; OpAlloc ENewArr 1 4608 3; OpWrite 4608 [1;2;3]; OpPeriod PEnable; OpPeriod PStart; OpStage true; OpOverloads true;
+   OpFree ENewArr 1 (Some 4608); OpPeriod PStop; OpAlloc (EDirect true) 0 9216 2; OpWrite 9219 [0]; OpPeriod PDisable; OpFree ENew 0 (Some 9216)].
+Definition ex_ops_b : list op :=
+  [OpPeriod PEnable; OpAlloc ENewArr 1 4608 3; OpWrite 4608 [1;2;3];
+   OpFree ENewArr 1 (Some 4608); OpAlloc (EDirect true) 0 9216 2; OpWrite 9219 [0]; OpStage false; OpFree ENew 0 (Some 9216)].
+Example period_independent_ex :
+  erase_ops ex_ops_a = erase_ops ex_ops_b /\ ex_ops_a <> ex_ops_b /\
+  run (mkS false ex_ds ex_ops_a) = run (mkS false ex_ds ex_ops_b) /\
+  run (mkS false ex_ds ex_ops_a) = [mkO 0 0 [(4608, Some [poison; poison; poison])] 0 false; mkO 1 3 [(9216, Some [poison; poison])] 0 false].
+Proof.
+  assert (E : erase_ops ex_ops_a = erase_ops ex_ops_b) by reflexivity.
+  split; [exact E|]. split; [discriminate|]. split; [|vm_compute; reflexivity].
+  apply (proj2 period_independent); [reflexivity|reflexivity|exact E].
+Qed.
+Example release_in_any_period_ex :
+  run_from ex_ds true d_init ([OpPeriod PStart; OpStage true; OpAlloc EMalloc 1 4608 1] ++ [OpWrite 4608 [7]] ++ [OpPeriod PDisable; OpStage false; OpFree ENew 0 (Some 4608)]) =
+  [mkO 1 2 [] 0 false].
+Proof.
+  pose proof (release_in_any_period ex_ds true d_init EMalloc 1%nat 4608 1 [(4608, [7])] ENew 0%nat (Some 4608) PStart true PDisable false) as H.
+  cbv zeta in H. cbn [map fst snd] in H. rewrite H.
+  vm_compute. reflexivity.
 Qed.
